@@ -125,12 +125,18 @@ func ParseUndelegationRecordKey(key []byte) (field *UndelegationKeyFields, err e
 	}, nil
 }
 
-func GetStakerUndelegationRecordKey(stakerID, assetID string, lzNonce uint64) []byte {
-	return []byte(strings.Join([]string{stakerID, assetID, hexutil.EncodeUint64(lzNonce)}, "/"))
+// GetStakerUndelegationRecordKey returns the key of the staker index entry of a record. The
+// record key is part of it: the nonce alone is not unique (every client chain has its own
+// nonce sequence and one native-token message carries several operators), and two records
+// must never share an index entry.
+func GetStakerUndelegationRecordKey(stakerID, assetID string, lzNonce uint64, recordKey []byte) []byte {
+	return []byte(strings.Join([]string{stakerID, assetID, hexutil.EncodeUint64(lzNonce), string(recordKey)}, "/"))
 }
 
-func GetPendingUndelegationRecordKey(height, lzNonce uint64) []byte {
-	return []byte(strings.Join([]string{hexutil.EncodeUint64(height), hexutil.EncodeUint64(lzNonce)}, "/"))
+// GetPendingUndelegationRecordKey returns the key of the pending (by completion height) index
+// entry of a record; see GetStakerUndelegationRecordKey for why it includes the record key.
+func GetPendingUndelegationRecordKey(height, lzNonce uint64, recordKey []byte) []byte {
+	return []byte(strings.Join([]string{hexutil.EncodeUint64(height), hexutil.EncodeUint64(lzNonce), string(recordKey)}, "/"))
 }
 
 // GetUndelegationOnHoldKey returns the key for the undelegation hold count
